@@ -15,7 +15,7 @@ func init() {
 		ID: "C18",
 		Explanation: "Decides structural necessary conditions of C18: (R-C18-1) encoding agreement at every hop: PutRequest.Value and SecretValue.Value are []byte (base64 in JSON) with the documented wire signatures, the stored form uses one standard base64 on both sides (R-C03-4), cache and file client agree (R-C13-4); " +
 			"(R-C18-2) transformer allow-list on the value path: following secret bytes from the request through the store and back out (db, server, client library), the only operations applied to them are []byte/string conversions, copies, json Marshal/Unmarshal, standard base64, Encrypt/Decrypt, readers; any other callee that takes the bytes and yields bytes or text (TrimSpace, ToValidUTF8, strings.*), any re-slicing with bounds and any concatenation is reported; " +
-			"(R-C18-3) CLI policy of `setec put`: every path to the Put request passes the false edge of (len(value) == 0 && !EmptyOK) for the value sent; on the file and pipe branches the value sent is checkPutText applied to exactly the bytes read; checkPutText returns its input for invalid UTF-8, for text without surrounding whitespace, and under --verbatim (tested before --trim-space), the trimmed text only under --trim-space, and otherwise an error, on which put returns before contacting the server.",
+			"(R-C18-4) bytes held by the Store (current or superseded) are never overwritten in place, so a value once served stays byte-identical; (R-C18-3) CLI policy of `setec put`: every path to the Put request passes the false edge of (len(value) == 0 && !EmptyOK) for the value sent; on the file and pipe branches the value sent is checkPutText applied to exactly the bytes read; checkPutText returns its input for invalid UTF-8, for text without surrounding whitespace, and under --verbatim (tested before --trim-space), the trimmed text only under --trim-space, and otherwise an error, on which put returns before contacting the server.",
 		NotDecided:  "Equality for all byte strings (depends on encoding/json, base64 and the AEAD: trusted); the interactive terminal branch's confirmation dialogue.",
 		Trusted:     append([]string{"encoding/json round-trips []byte through base64", "bytes.TrimSpace removes only leading/trailing white space"}, commonTrusted...),
 		Assumptions: []string{},
@@ -197,6 +197,9 @@ func runC18(c *eng.Ctx, tier string) {
 		c.Ok("R-C18-2", nil, 0, "value path from "+itoa(len(sources))+" sources through db/server/client", "only allow-listed operations are applied")
 	}
 
+	// R-C18-4: what a Store serves is what was fetched: the bytes are never overwritten in place
+	storeBytesImmutable(c, "R-C18-4")
+
 	c18CLI(c)
 }
 
@@ -309,8 +312,23 @@ func c18CLI(c *eng.Ctx) {
 			nChecked++
 			// applied to exactly the bytes read
 			rd, ridx := eng.TupleCall(call.Call.Args[0])
-			okRead := rd != nil && ridx == 0 && (eng.CalleeIs(&rd.Call, "os", "ReadFile") || eng.CalleeIs(&rd.Call, "io", "ReadAll"))
-			c.Check(okRead, "R-C18-3", runPut, call.Pos(), site+" [input]", "checkPutText is applied to exactly the bytes read from the file or pipe", "applied to "+eng.ValStr(call.Call.Args[0]))
+			okRead := false
+			if rd != nil && ridx == 0 {
+				switch {
+				case eng.CalleeIs(&rd.Call, "os", "ReadFile"):
+					okRead = argField(rd.Call.Args[0], "File")
+				case eng.CalleeIs(&rd.Call, "io", "ReadAll"):
+					// the whole of standard input, not a wrapped/limited reader
+					okRead = eng.IsGlobalLoad(eng.OriginConv(rd.Call.Args[0]), "os", "Stdin")
+					if ci, isCI := rd.Call.Args[0].(*ssa.ChangeInterface); isCI {
+						okRead = eng.IsGlobalLoad(ci.X, "os", "Stdin")
+					}
+					if mi, isMI := rd.Call.Args[0].(*ssa.MakeInterface); isMI {
+						okRead = eng.IsGlobalLoad(mi.X, "os", "Stdin")
+					}
+				}
+			}
+			c.Check(okRead, "R-C18-3", runPut, call.Pos(), site+" [input]", "checkPutText is applied to exactly the bytes read: os.ReadFile(--from-file) or io.ReadAll(os.Stdin) of the whole input", "applied to "+eng.ValStr(call.Call.Args[0]))
 			// its error returns before the request: from the err != nil edge Put is unreachable
 			ev := saveErr(call)
 			hit, _ := eng.Search(runPut, call, eng.AssumeErr(ev, false), nil, func(x ssa.Instruction) bool { return x == ssa.Instruction(put) })
